@@ -139,4 +139,28 @@ theorem newWire_appendTsig (body o : Bytes) (rd : Rdata) (hl : 12 ≤ body.lengt
   rw [← h1012]
   exact hsplit.symm
 
+theorem lookupAlg_mem (tbl : List AlgEntry) (e : AlgEntry) (he : e ∈ tbl) : ∃ e', lookupAlg tbl e.name = some e' := by
+  unfold lookupAlg
+  have : (tbl.find? fun x => nameEq x.name e.name).isSome = true := by
+    rw [List.find?_isSome]
+    exact ⟨e, he, nameEq_refl e.name⟩
+  exact Option.isSome_iff_exists.mp this
+
+theorem digest_congr (tbl : List AlgEntry) (wire : Bytes) (key : Key) (rd rd' : Rdata) (t : Nat) (rm : Bytes)
+    (ctx : Option Ctx) (multi : Bool)
+    (h1 : rd'.originalId = rd.originalId) (h2 : rd'.fudge = rd.fudge) (h3 : rd'.error = rd.error)
+    (h4 : rd'.other = rd.other) (h5 : rd'.timeSigned = t) :
+    digest tbl wire key rd' none rm ctx multi = digest tbl wire key rd (some t) rm ctx multi := by
+  unfold digest
+  simp [h1, h2, h3, h4, h5]
+
+theorem rd16_appendTsig (body o : Bytes) (rd : Rdata) (hl : 12 ≤ body.length) (hc : rd16 body 10 + 1 < 65536) :
+    rd16 (appendTsig body o rd) 10 = rd16 body 10 + 1 := by
+  unfold appendTsig setArcount
+  have hlen : (List.take 10 (body ++ tsigRR o rd)).length = 10 := by simp; omega
+  have := rd16_u16 (rd16 body 10 + 1) hc (List.take 10 (body ++ tsigRR o rd)) (List.drop 12 (body ++ tsigRR o rd))
+  rw [hlen] at this
+  exact this
+
+
 end Model.Tsig
